@@ -722,6 +722,10 @@ def run(ctx):
     rule_string_guard(ctx)
     rule_registration(ctx)
     rule_checks_latest_wins(ctx)
+    # R12.14: what a format function raises outside its `raises` reaches the caller: on its way out of the dispatcher nothing -- the
+    # leaving of a scope entered for the schema's id included -- swallows it (C12-r7m1)
+    from . import scope as _scope
+    _scope.rule_scope_entered(ctx, "R12.14")
     rule_single_pass(ctx)
     # R12.8: "without a format checker format has no effect" also where the library validates on the caller's behalf: check_schema
     # (and so jsonschema.validate) checks the schema against the metaschema with no format checker
